@@ -139,10 +139,16 @@ structure Fixes where
   dropSnapOnRevert : Bool
   /-- a revert crossing a window boundary backwards deletes the persisted previous window too -/
   dropPrevWinOnCross : Bool
+  /-- `ensureInit` does not keep the error of a failed lazy initialisation: the next access runs
+  the initialiser again (proposed-fixes/C05-filter-init-error-not-cached.diff) -/
+  retryInit : Bool
 deriving DecidableEq, Repr
 
-def Fixes.none : Fixes := ⟨false, false, false⟩
-def Fixes.all : Fixes := ⟨true, true, true⟩
+def Fixes.none : Fixes := ⟨false, false, false, false⟩
+def Fixes.all : Fixes := ⟨true, true, true, true⟩
+/-- /repo at 3c301f0: fix commits 84d7a3b, 702b167, 3373c0b are in, the initialisation error is
+still cached. -/
+def Fixes.now : Fixes := ⟨true, true, true, false⟩
 
 /-! ### Accessors -/
 
@@ -222,6 +228,42 @@ def initFilter (W : Nat) (d : Disk) : Option (Filt × Disk) :=
       else if nx ≤ latest ∧ latest ≤ w.lo + (W - 1) then fill W (latest + 1 - nx) nx ⟨w, nx⟩ d
       else rebuild W d latest
     | _ => rebuild W d latest
+
+/-- `fill` in which the direct write of a rollover FAILS (the database refuses it): `none` as soon
+as a write is attempted. -/
+def fillNW (W : Nat) : Nat → Nat → Filt → Disk → Option Filt
+  | 0, _, f, _ => some f
+  | cnt + 1, b, f, d =>
+    match getBlk d (.header b) with
+    | none => none
+    | some hb =>
+      match f.insert W hb.bits b with
+      | none => none
+      | some (f', ws) =>
+        match ws with
+        | [] => fillNW W cnt (b + 1) f' d
+        | _ => none
+
+/-- `initFilter` on a database that refuses the initialisation's direct writes. -/
+def initFilterNW (W : Nat) (d : Disk) : Option Filt :=
+  match getHeight d with
+  | none => some ⟨Win.empty 0, 0⟩
+  | some latest =>
+    let rb : Option Filt :=
+      let cont := scanBack W d (latest / W + 1) (wstart W latest)
+      fillNW W (latest + 1 - cont) cont ⟨Win.empty cont, cont⟩ d
+    match d .snap with
+    | some (.snap w nx) =>
+      if nx = latest + 1 then some ⟨w, nx⟩
+      else if nx ≤ latest ∧ latest ≤ w.lo + (W - 1) then fillNW W (latest + 1 - nx) nx ⟨w, nx⟩ d
+      else rb
+    | _ => rb
+
+/-- The lazy initialisation on this disk needs a direct write (a fill that reaches the end of a
+window persists that window): the only commit of the storage paths that is not part of a call's
+own batch. -/
+def initNeedsWrite (W : Nat) (d : Disk) : Bool :=
+  (initFilter W d).isSome && (initFilterNW W d).isNone
 
 /-- `ensureInit`: a lazy filter is brought up from the database on first use. -/
 def ensureInit (W : Nat) (n : Node) : Node :=
@@ -381,27 +423,27 @@ def blockDels (prev : Option Nat) (tb : Block) : List Write :=
 /-- The sweep of `pruneHashKeyedUpto` (as of 55da2ac): per block, delete the hash→number mapping of
 the block BELOW it (`prev`; one iteration late, so the mapping of the block below wherever the
 sweep stops survives), its transaction-hash lookups (L1-message lookups and legacy state history
-are keyed the same way and abstracted with them); when the pending batch has reached `thr` point
-deletes it is committed TOGETHER WITH the range delete for the blocks it covers
+are keyed the same way and abstracted with them); when `cut b acc` says so the pending batch is committed TOGETHER WITH the range delete for the blocks it covers
 (`PruneBlockDataUpto(b+1)`) and a new batch is started; the last batch carries
-`PruneBlockDataUpto(end)`. `thr` stands for `targetBatchByteSize` (the harness uses the smallest
-threshold: every non-empty batch is rotated). Reads go to the database, whose records of block
+`PruneBlockDataUpto(end)`. `cut` stands for `batch.Size() >= targetBatchByteSize` — an ARBITRARY decision as far as the model
+goes (the real size also counts the state-history deletes the model does not have), so theorems
+quantify over every `cut`; the harness uses the smallest threshold (`cutNonEmpty`). Reads go to the database, whose records of block
 `b` are untouched by the batches committed before (they only delete below `b`). -/
-def pruneSweep (W lag : Nat) (d : Disk) (thr : Nat) :
+def pruneSweep (W lag : Nat) (d : Disk) (cut : Nat → List Write → Bool) :
     Nat → Nat → Option Nat → List Write → Option (List (List Write))
   | 0, b, _, acc => some [acc ++ pruneRange W lag b]
   | cnt + 1, b, prev, acc =>
     match getBlk d (.su b), getBlk d (.txs b) with
     | some su, some tb =>
       let acc' := acc ++ blockDels prev tb
-      if thr ≤ acc'.length then
-        (pruneSweep W lag d thr cnt (b + 1) (some su.hash) []).map
+      if cut b acc' = true then
+        (pruneSweep W lag d cut cnt (b + 1) (some su.hash) []).map
           (fun rest => (acc' ++ pruneRange W lag (b + 1)) :: rest)
-      else pruneSweep W lag d thr cnt (b + 1) (some su.hash) acc'
+      else pruneSweep W lag d cut cnt (b + 1) (some su.hash) acc'
     | _, _ => none
 
-/-- `pruner.PruneUpto(end, thr)`. -/
-def prunePlanThr (W : Nat) (n : Node) (endExcl thr : Nat) : Plan :=
+/-- `pruner.PruneUpto(end)` with rotation decision `cut`. -/
+def prunePlanThr (W : Nat) (n : Node) (endExcl : Nat) (cut : Nat → List Write → Bool) : Plan :=
   match getHeight n.disk with
   | none => ⟨n.disk, [], n.mem, .ok⟩
   | some h =>
@@ -416,11 +458,14 @@ def prunePlanThr (W : Nat) (n : Node) (endExcl thr : Nat) : Plan :=
         match prev with
         | none => ⟨n.disk, [], n.mem, .err .notfound⟩
         | some p0 =>
-          match pruneSweep W blockHashLag n.disk thr (endExcl - start) start p0 [] with
+          match pruneSweep W blockHashLag n.disk cut (endExcl - start) start p0 [] with
           | none => ⟨n.disk, [], n.mem, .err .notfound⟩
           | some bs => ⟨n.disk, bs, n.mem, .ok⟩
 
-def prunePlan (W : Nat) (n : Node) (endExcl : Nat) : Plan := prunePlanThr W n endExcl 1
+/-- The harness' threshold (1 byte): a batch is committed as soon as it holds a point delete. -/
+def cutNonEmpty : Nat → List Write → Bool := fun _ acc => !acc.isEmpty
+
+def prunePlan (W : Nat) (n : Node) (endExcl : Nat) : Plan := prunePlanThr W n endExcl cutNonEmpty
 
 /-! ### The pruning node's filter initialiser (`pruner.InitializeRunningEventFilter`) -/
 
@@ -482,6 +527,10 @@ inductive Fault where
   | none
   | failAt (k : Nat)
   | crashAfter (k : Nat)
+  /-- the direct window write of the lazy filter initialisation inside the call fails -/
+  | failInit
+  /-- the process dies after the lazy initialisation's write, before the call's own commit -/
+  | crashInit
 deriving DecidableEq, Repr
 
 def applyCommits (d : Disk) (cs : List (List Write)) : Disk := cs.foldl applyBatch d
@@ -506,6 +555,16 @@ def exec (W : Nat) (fx : Fixes) (n : Node) (op : Op) (ft : Fault) : Node × Out 
         memAfter fx op (.err .io) (match op with | .restart => (snapPlan W n).mem | _ => p.mem)⟩, .err .io)
     else (⟨applyCommits p.disk0 p.commits, memAfter fx op p.out p.mem⟩, p.out)
   | .crashAfter k => (⟨applyCommits p.disk0 (p.commits.take (k + 1)), .lazy⟩, .ok)
+  | .failInit =>
+    -- The call reaches the filter (on a node whose initialisation cannot complete it answers
+    -- `err init` exactly then), the filter is lazy and its initialisation has to write: the
+    -- write fails, nothing reaches the disk, the call returns the initialisation error. The
+    -- code as it is keeps that error (`.broken`); Store / RevertHead then drop it again
+    -- (`memAfter`), WriteRunningEventFilter does not.
+    if n.mem = .lazy ∧ initNeedsWrite W n.disk = true ∧ (plan W fx ⟨n.disk, .broken⟩ op).out = .err .init then
+      (⟨n.disk, memAfter fx op (.err .init) (if fx.retryInit then .lazy else .broken)⟩, .err .init)
+    else (⟨applyCommits p.disk0 p.commits, memAfter fx op p.out p.mem⟩, p.out)
+  | .crashInit => (⟨p.disk0, .lazy⟩, .ok)
 
 /-- A history: calls with their faults. -/
 def run (W : Nat) (fx : Fixes) (n : Node) : List (Op × Fault) → Node
